@@ -36,6 +36,7 @@ class ProvCtx:
         self.views = {}             # pid -> View
         self.fee_base = {}          # pid -> int (sat/kB for 1 block)
         self.missing = {}           # pid -> set(method names the provider does not implement)
+        self.spent_unknown = set()  # pids that do not know whether outputs are spent (gettransaction / getblock)
         self.calls = []             # invocation records (dicts)
         self.on_call = None
         self.instantiations = []    # (seq, pid)
@@ -155,7 +156,7 @@ class SimClientBase(BaseClient):
         except Exception:
             return ''
 
-    def _txobj(self, c, view):
+    def _txobj(self, c, view, spent_known=True):
         ch = CTX.chain
         status = ch.tx_visible(c, view)
         if status is None:
@@ -182,6 +183,10 @@ class SimClientBase(BaseClient):
                             locking_script=c.in_scripts[i], witnesses=list(vin.witness), strict=self.strict)
         for n, o in enumerate(c.tx.vout):
             sp = ch.spender(c.txid, n, view)
+            if not spent_known:
+                t.add_output(value=o.value, address=self._addr(o.script_pubkey), lock_script=o.script_pubkey,
+                             output_n=n, spent=None, strict=self.strict)
+                continue
             t.add_output(value=o.value, address=self._addr(o.script_pubkey), lock_script=o.script_pubkey,
                          output_n=n, spent=bool(sp), spending_txid='' if not sp else sp[0],
                          spending_index_n=None if not sp else sp[1], strict=self.strict)
@@ -230,7 +235,7 @@ class SimClientBase(BaseClient):
             c = CTX.chain.txs.get(txid)
             if c is None:
                 raise ClientError("simulated: transaction not found")
-            return self._txobj(c, v)
+            return self._txobj(c, v, spent_known=self.pid not in CTX.spent_unknown)
         return self._do('gettransaction', (txid,), honest)
 
     def gettransactions(self, address, after_txid='', limit=20):
@@ -270,7 +275,7 @@ class SimClientBase(BaseClient):
                 raise ClientError("simulated: block not found")
             ids = b.txids[(page - 1) * limit: page * limit] if limit else []
             if parse_transactions:
-                txs = [self._txobj(ch.txs[i], v) for i in ids]
+                txs = [self._txobj(ch.txs[i], v, spent_known=self.pid not in CTX.spent_unknown) for i in ids]
             else:
                 txs = list(ids)
             return {'bits': b.bits, 'depth': ch.visible_height(v) - b.height + 1, 'block_hash': b.hash,
